@@ -253,7 +253,8 @@ class HP:
         """floor / Mod evaluated exactly at an integer coming from a computation: any rounding flips it"""
         if arg_expr[0] in ("num", "int") or not _fin(a):
             return
-        if a == mpmath.floor(a):
+        # exactly at, or within 1e-25 of, an integer (sin(pi) at 50 digits is 1e-51, not 0)
+        if abs(a - mpmath.nint(a)) <= mpf("1e-25") * (1 + abs(a)):
             self.unstable = True
 
     def ev(self, e, env):
@@ -295,7 +296,10 @@ class HP:
                 self.unstable = self.unstable or e[1] == "sign"
             return r(hp_fn(e[1], a))
         if tag == "rel":
-            return mpf(1) if hp_rel(e[1], self.ev(e[2], env), self.ev(e[3], env)) else mpf(0)
+            a, b = self.ev(e[2], env), self.ev(e[3], env)
+            if _fin(a) and _fin(b) and a != b and abs(a - b) <= mpf("1e-25") * (abs(a) + abs(b)):
+                self.unstable = True   # equal up to the working precision only: the comparison is meaningless
+            return mpf(1) if hp_rel(e[1], a, b) else mpf(0)
         if tag == "not":
             return mpf(0) if self.ev(e[1], env) != 0 else mpf(1)
         if tag == "and":
